@@ -47,6 +47,7 @@ var bufNameRe = regexp.MustCompile(`(?i)^(buf|pool)`)
 
 type fnSummary struct {
 	wParams map[int]bool
+	wParamWit map[int]string
 	wBufs   map[string]string // path -> witness
 	retBuf  string
 }
@@ -123,7 +124,7 @@ func effectsOf(p *core.Program) *effects {
 			return true
 		})
 		e.decls[fn] = d
-		e.sums[fn] = &fnSummary{wParams: map[int]bool{}, wBufs: map[string]string{}}
+		e.sums[fn] = &fnSummary{wParams: map[int]bool{}, wParamWit: map[int]string{}, wBufs: map[string]string{}}
 		if fd.Recv != nil {
 			e.byName[fn.Name()] = append(e.byName[fn.Name()], fn)
 		}
@@ -229,13 +230,30 @@ func (e *effects) origins(d *effDecl, x ast.Expr, depth int) []origin {
 		if o == d.recv {
 			return []origin{{recv: true}}
 		}
-		if i, ok := d.pidx[o]; ok {
-			// a parameter that the function rebinds is no longer (only) the caller's storage; keep both views
-			res := []origin{{param: i}}
-			for _, df := range d.defs[o] {
-				res = append(res, e.origins(d, df, depth+1)...)
+		pi, isParam := d.pidx[o]
+		// flow-sensitive: only the definitions that reach this use
+		if rhs, initial, ok := reachingDefs(info, d.fd).defsAt(y, o); ok {
+			var res []origin
+			if isParam && initial {
+				res = append(res, origin{param: pi})
+			}
+			for _, df := range rhs {
+				if df != nil {
+					res = append(res, e.origins(d, df, depth+1)...)
+				}
 			}
 			return res
+		}
+		if isParam {
+			// a parameter that the function rebinds (op1 = new(big.Int).Set(op1)) is treated as the local it becomes
+			if len(d.defs[o]) > 0 {
+				var res []origin
+				for _, df := range d.defs[o] {
+					res = append(res, e.origins(d, df, depth+1)...)
+				}
+				return res
+			}
+			return []origin{{param: pi}}
 		}
 		var res []origin
 		for _, df := range d.defs[o] {
@@ -386,8 +404,23 @@ func (e *effects) solve() {
 			d := e.decls[f]
 			s := e.sums[f]
 			info := d.pk.TypesInfo
+			sig := f.Type().(*types.Signature)
+			outObjs := map[types.Object]bool{}
+			for i := 0; i < sig.Params().Len(); i++ {
+				if isOutParamName(sig.Params().At(i).Name()) {
+					outObjs[sig.Params().At(i)] = true
+				}
+			}
+			pm := parentMapCached(d.fd)
+			aliases := localAliasesMode(info, d.fd, true)
+			var curNode ast.Node
 			addO := func(os []origin, wit string) {
 				for _, o := range os {
+					// a write that only happens when the caller passed the same object as input and output
+					if !o.recv && curNode != nil && o.param < sig.Params().Len() && !outObjs[sig.Params().At(o.param)] &&
+						identityGuarded(info, pm, curNode, sig.Params().At(o.param), outObjs, aliases) {
+						continue
+					}
 					if o.recv {
 						if bp := bufPath(o.path); bp != "" {
 							if _, ok := s.wBufs[bp]; !ok {
@@ -397,6 +430,7 @@ func (e *effects) solve() {
 						}
 					} else if !s.wParams[o.param] {
 						s.wParams[o.param] = true
+						s.wParamWit[o.param] = wit
 						changed = true
 					}
 				}
@@ -408,6 +442,7 @@ func (e *effects) solve() {
 						continue
 					}
 				}
+				curNode = w.target
 				addO(e.origins(d, w.target, 0), e.prog.Rel(w.pos))
 			}
 			ast.Inspect(d.fd.Body, func(x ast.Node) bool {
@@ -427,7 +462,12 @@ func (e *effects) solve() {
 					}
 					for j := range cs.wParams {
 						if j < len(call.Args) {
-							addO(e.origins(d, call.Args[j], 0), fmt.Sprintf("%s at %s", cf.Name(), e.prog.Rel(call.Pos())))
+							w := fmt.Sprintf("%s at %s", cf.Name(), e.prog.Rel(call.Pos()))
+							if cw := cs.wParamWit[j]; cw != "" && len(cw) < 300 {
+								w += " <- " + cw
+							}
+							curNode = call
+							addO(e.origins(d, call.Args[j], 0), w)
 						}
 					}
 					if onRecv {
@@ -659,7 +699,12 @@ func scanBufState(c *core.Ctx) []ob {
 			}
 		}
 		if debug != "" && strings.Contains(fkey, debug) {
-			fmt.Fprintf(os.Stderr, "BUFSTATE-DEBUG %s wBufs=%v\n", fkey, e.sums[f].wBufs)
+			fmt.Fprintf(os.Stderr, "BUFSTATE-DEBUG %s wBufs=%v wParams=%v viols=%d\n", fkey, e.sums[f].wBufs, e.sums[f].wParams, len(viols))
+			for ff, dd := range e.decls {
+				if strings.Contains(core.FuncKey(dd.pk, dd.fd), debug) {
+					fmt.Fprintf(os.Stderr, "   sum %s wParams=%v\n", ff.Name(), e.sums[ff].wParams)
+				}
+			}
 		}
 		// trusted re-initialisation: an init of the buffer inside the innermost loop containing the use, before the use
 		pm := parentMapCached(d.fd)
@@ -778,6 +823,84 @@ func init() {
 			for _, o := range control(c, "BUFSTATE", scanBufState, "(bufOwner).Twice") {
 				out = append(out, withProps(o, all...))
 			}
+			return out
+		}})
+}
+
+// ---- IMMUTX: the interprocedural cross-check of IMMUT
+
+// IMMUT looks at the write sites of an operation and of the helpers it inherits operands to, with a name-based notion
+// of which callee parameters are outputs. IMMUTX asks the same question of the write-effect summaries: an input operand
+// of an exported operation must not be among the parameters the operation (transitively, through any static or
+// by-name-resolved callee) writes through.
+func scanImmutX(c *core.Ctx) []ob {
+	var out []ob
+	e := effectsOf(c.Program)
+	n := 0
+	var fns []*types.Func
+	for f := range e.decls {
+		fns = append(fns, f)
+	}
+	sort.Slice(fns, func(i, j int) bool { return fns[i].Pos() < fns[j].Pos() })
+	for _, f := range fns {
+		d := e.decls[f]
+		rel := core.ShortPkg(d.pk.PkgPath)
+		inScope := c.IsFixture
+		for _, s := range immutScope {
+			if strings.HasPrefix(rel, s) {
+				inScope = true
+			}
+		}
+		fd := d.fd
+		if !inScope || fd.Recv == nil || !fd.Name.IsExported() || !immutRecv.MatchString(core.RecvTypeName(fd)) {
+			continue
+		}
+		if isCtorName(fd.Name.Name) && !copyCtorNames[fd.Name.Name] {
+			continue
+		}
+		sig := f.Type().(*types.Signature)
+		outs := outputParams(sig)
+		fkey := core.FuncKey(d.pk, fd)
+		sum := e.sums[f]
+		for i := 0; i < sig.Params().Len(); i++ {
+			p := sig.Params().At(i)
+			if outs[i] || !pointerLike(p.Type()) || p.Name() == "" || p.Name() == "_" {
+				continue
+			}
+			if _, isFunc := p.Type().Underlying().(*types.Signature); isFunc {
+				continue
+			}
+			if ex := immutInPlace[fkey]; ex != nil && (ex[p.Name()] != "" || ex["*"] != "") {
+				continue
+			}
+			if pn := namedOf(p.Type()); pn != nil {
+				if !pn.Obj().Exported() || immutRecv.MatchString(pn.Obj().Name()) {
+					continue
+				}
+			}
+			if !storageType(p.Type()) && !isBigNumber(deref(p.Type())) {
+				continue
+			}
+			n++
+			key := fmt.Sprintf("IMMUTX:%s#%s", fkey, p.Name())
+			if sum.wParams[i] {
+				out = append(out, violOb("IMMUTX", key, c.Rel(fd.Pos()), fmt.Sprintf("%s writes through its input operand %s: %s", fkey, p.Name(), sum.wParamWit[i])))
+			} else {
+				out = append(out, okOb("IMMUTX", key, c.Rel(fd.Pos()), "not among the parameters the operation transitively writes through", true))
+			}
+		}
+	}
+	c.Stats["immutx_inputs"] = n
+	return out
+}
+
+func init() {
+	core.Register(&core.Rule{Name: "IMMUTX", Props: []string{"C09"},
+		Doc: "interprocedural cross-check of IMMUT: no input operand of an exported evaluator/encoder/protocol method is among the parameters through which the method transitively writes (write-effect summaries over the whole module)",
+		Run: func(c *core.Ctx) []ob {
+			out := scanImmutX(c)
+			out = append(out, core.Floor("IMMUTX", nil, "input operands", c.Stats["immutx_inputs"], 200)...)
+			out = append(out, control(c, "IMMUTX", scanImmutX, "AddScaled#op0")...)
 			return out
 		}})
 }
